@@ -405,7 +405,7 @@ pub fn property() -> Property {
         id: "C17",
         run,
         budget: |t| match t {
-            Tier::Quick => 6000,
+            Tier::Quick => 30000,
             Tier::Thorough => 500_000,
         },
         wall_cap_s: |t| match t {
